@@ -44,8 +44,8 @@ theorem C09_request_pipeline (u : UriImpl) (cfg : ReqCfg) (msgs : List (Bytes ×
 
 /-- C09 for responses (repaired tree, normalised boundary: for a declared-length body the boundary is
     the end of the body, i.e. bytes consumed minus bytes set aside as trailing data) -/
-theorem C09_response_pipeline (msgs : List (Bytes × RespState))
-    (h : ∀ p ∈ msgs, respSys.parse Response.new p.1 = .ok .complete p.2 p.1.length) (t : Bytes) :
-    respSys.parseSeq Response.new msgs.length ((msgs.map (·.1)).flatten ++ t)
+theorem C09_response_pipeline (hl : Option Nat) (msgs : List (Bytes × RespState))
+    (h : ∀ p ∈ msgs, (respSys hl).parse Response.new p.1 = .ok .complete p.2 p.1.length) (t : Bytes) :
+    (respSys hl).parseSeq Response.new msgs.length ((msgs.map (·.1)).flatten ++ t)
       = msgs.map fun p => (p.2, p.1.length) :=
-  Sys.pipeline respSys_lawful respInv_new msgs h t
+  Sys.pipeline (respSys_lawful hl) respInv_new msgs h t
